@@ -55,7 +55,7 @@ def gen_job(job):
     for idx, (cname, maker, entry) in enumerate(todo):
         if idx % nparts != part:
             continue
-        crash = entry in ("get", "create") and cname in ("absent", "older", "older-norows", "current", "newer") \
+        crash = entry in ("get", "create") and cname in ("absent", "older", "older-norows", "older-stalebackup", "current", "newer") \
             and not (entry == "create" and cname != "absent")
         r2 = random.Random("dbfiles/%s/%d/%d" % (kind, seed, idx))
         mk = dict(dbfiles.contents(kind, r2, "quick"))[cname] if False else maker
